@@ -248,7 +248,7 @@ def body_steep(scn):
 
 
 def plan(tier):
-    return [("runs", 16), ("rare", 16), ("long", 16), ("steep", 16), ("logedge", 8), ("options", 16), ("fitlik", 2)]
+    return [("runs", 16), ("rare", 16), ("long", 16), ("steep", 16), ("logedge", 8), ("options", 16), ("fitlik", 2), ("quietflat", 16)]
 
 
 N_OPT = {"quick": 320, "thorough": 6000}
@@ -275,6 +275,12 @@ def run_part(res, part, tier, seed, shard, nshards):
     if part == "options":
         return runlevel.sweep(res, None, N_OPT[tier], seed + 4242, shard, nshards, body_options,
                               strategy=scenario.with_adv_opts(dict(prof, p_subdesign=0.0, extra_budget=(10, 70))))
+    if part == "quietflat":
+        # declared / specified noise on targets that return exactly the same value everywhere (or on wide plateaus): the GP is
+        # trained on values without any spread
+        return runlevel.sweep(res, dict(prof, target_kinds=("const", "const", "plateau"), noise_modes=("declared", "specified"),
+                                        p_quiet_noise=1.0, p_subdesign=0.0, extra_budget=(10, 60)),
+                              48 if tier == "quick" else 600, seed + 77, shard, nshards, body)
     if part == "fitlik":
         return runlevel.sweep(res, dict(prof, p_subdesign=0.0, extra_budget=(10, 30), extra_opts=(("fit_lik", (False,), 1.0),)),
                               4 if tier == "quick" else 32, seed + 99, shard, nshards, body_fitlik)
@@ -297,7 +303,7 @@ def minimise(part, tier, sig, case, seed):
     mr = 12 if tier == "quick" else 40
     if part == "long":
         return {"case": case, "note": "problem sub-seed (a single integer)"}
-    if part in ("runs", "steep", "logedge", "options"):
+    if part in ("runs", "steep", "logedge", "options", "quietflat"):
         return runlevel.field_minimise(case, sig, body, max_runs=mr)
     if part == "fitlik":
         return runlevel.field_minimise(case, sig, body_fitlik, max_runs=mr)
